@@ -114,17 +114,8 @@ def _check(ctx: Ctx) -> None:
                   construct="canonical sort key does not order by message type", message=f"{names}", file=s.file, node=call)
         ctx.check(not any(k.arg == "reverse" for k in call.keywords), "ORDER", "ascending sort", function=s.qualname,
                   construct="canonical sort is reversed", message="", file=s.file, node=call)
-    order = p.enum_order("MessageType")
-    ctx.check(order.index("NOTE_OFF") < order.index("NOTE_ON"), "ORDER", "MessageType declares NOTE_OFF before NOTE_ON", function="MessageType",
-              construct="NOTE_ON ordered before NOTE_OFF", message="abutting notes of one pitch would re-open before closing and be fused/dropped "
-              "depending on merge order", file=p.cls("MessageType").file, node=p.cls("MessageType").node)
-    lt = p.func("MessageType.__lt__")
-    ctx.analysed(lt)
-    txt = src(lt.node)
-    ok = ".index(self)" in txt and ".index(other)" in txt and any(isinstance(r.value, ast.Compare) and isinstance(r.value.ops[0], ast.Lt) and
-                                                                  "index(self)" in src(r.value.left) for r in walk_local(lt.node) if isinstance(r, ast.Return))
-    ctx.check(ok, "ORDER", "MessageType.__lt__ compares declaration positions", function=lt.qualname,
-              construct="MessageType ordering is not by declaration position", message="", file=lt.file, node=lt.node)
+    from ..engines.structure import message_type_order_rule
+    message_type_order_rule(ctx, "ORDER")
     bi = p.func("binary_insort")
     ctx.analysed(bi)
     cmpn = [c for c in walk_local(bi.node) if isinstance(c, ast.Compare) and ".time" in src(c)]
